@@ -453,9 +453,18 @@ def rule_a10(repo, col):
                 e = ast.parse(val, mode="eval").body
             except SyntaxError:
                 raise AnalysisError("_builtin_arg: return value not parseable")
-            subs = [x for x in ast.walk(e) if isinstance(x, ast.Subscript) and norm(x.value) == "%s.args" % term]
+            # the selected argument is what is unified with the third argument
+            uni = [x for x in ast.walk(e) if isinstance(x, ast.Call) and dotted(x.func) == "unify_value" and x.args and isinstance(x.args[0], ast.Subscript)
+                   and norm(x.args[0].value) == "%s.args" % term and not isinstance(x.args[0].slice, ast.Slice)]
+            subs = [uni[0].args[0]] if uni and len({norm(u) for u in uni}) == 1 else \
+                [x for x in ast.walk(e) if isinstance(x, ast.Subscript) and norm(x.value) == "%s.args" % term and not isinstance(x.slice, ast.Slice)]
             if len(subs) != 1:
                 raise AnalysisError("_builtin_arg: selected argument not found in %s" % val[:80])
+            if uni and isinstance(e, ast.List) and len(e.elts) == 1 and isinstance(e.elts[0], ast.Tuple) and len(e.elts[0].elts) == 3 and 1 <= N <= arity:
+                second = norm(e.elts[0].elts[1])
+                col.decide("A10", m, f.node, norm(uni[0]) in second, "arg(%d, T, A): the term handed back carries the unified argument" % N,
+                           "arg(%d, T, A) hands back %s as its second argument: the value unified with A must also be placed in T at position %d, otherwise T = f(X,Y), arg(1,T,a) leaves X "
+                           "unbound" % (N, second[:60], N), construct="_builtin_arg: N=%d, term carries the binding" % N, function="_builtin_arg")
             txt = dtable_text(norm(subs[0].slice), mapping)
             okf, sel = const_value(ast.parse(txt, mode="eval").body)
             if not okf or not isinstance(sel, int):
@@ -470,6 +479,39 @@ def rule_a10(repo, col):
     col.floor("A10.arg_positions", n, 4)
 
 
+def rule_a11(repo, col):
+    """functor/3, construction mode (functor(T, f, 2)): the new term's arguments are distinct fresh variables - a repetition of one value (`(None,) * n`) names ONE variable n times"""
+    from .. import dtable, modes
+
+    MOD = "problog.engine_builtin"
+    f = repo.func(MOD, "_builtin_functor")
+    m = f.module
+    sites = [s_ for s_ in modes.sites(repo, [MOD]) if s_.func is f]
+    if len(sites) != 1 or sites[0].modes is None:
+        raise AnalysisError("_builtin_functor: check_mode site not understood")
+    site = sites[0]
+    build = [i for i, md in enumerate(site.modes) if md[0] == "v"]
+    if len(build) != 1:
+        raise AnalysisError("_builtin_functor: construction mode not found in %s" % (site.modes,))
+    paths = dtable.compatible(dtable.extract(f.node, opaque_loops=True), [(norm(site.call), build[0])])
+    paths = [p_ for p_ in paths if p_.end == "return" and p_.value not in ("[]", None)]
+    if len(paths) != 1:
+        raise AnalysisError("_builtin_functor: %d answering paths in the construction mode" % len(paths))
+    e = ast.parse(paths[0].value, mode="eval").body
+    terms = [x for x in ast.walk(e) if isinstance(x, ast.Call) and dotted(x.func) == "Term" and any(isinstance(a, ast.Starred) for a in x.args)]
+    if len(terms) != 1:
+        raise AnalysisError("_builtin_functor: constructed term not found in %s" % paths[0].value[:80])
+    star = [a.value for a in terms[0].args if isinstance(a, ast.Starred)][0]
+    repeated = isinstance(star, ast.BinOp) and isinstance(star.op, ast.Mult) and any(isinstance(x, (ast.Tuple, ast.List)) and len(x.elts) == 1 for x in (star.left, star.right))
+    fresh = isinstance(star, ast.Call) and dotted(star.func) == "range" and "context_min_var" in norm(star)
+    if not repeated and not fresh:
+        raise AnalysisError("_builtin_functor: argument list of the new term not understood: %s" % norm(star)[:80])
+    col.decide("A11", m, f.node, fresh, "functor(T, f, N) builds f with N distinct fresh variables",
+               "functor/3 in its construction mode builds the term with the arguments %s: one value repeated N times is ONE variable N times (the call-return step maps equal placeholders to "
+               "the same fresh variable), so functor(T, f, 2), T = f(a, b) fails; the arguments must be distinct fresh variables" % norm(star)[:60],
+               construct="_builtin_functor: arguments of the constructed term", function="_builtin_functor")
+
+
 def dtable_text(src, mapping):
     from .. import dtable
 
@@ -479,7 +521,8 @@ def dtable_text(src, mapping):
 
 
 def run(repo, col):
-    col.rule("A10", "arg/3 selects positions 1..arity only")
+    col.rule("A10", "arg/3 selects positions 1..arity only and binds the selected argument in the term")
+    col.rule("A11", "functor/3 builds a term over distinct fresh variables")
     col.rule("A9", "succ/2 and plus/3: one relation in every call mode")
     col.rule("A8", "length/2 answers are closed lists in the partial-list modes")
     col.rule("A1", "documented arithmetic functions/predicates exist in the dispatch table / builtin registry")
@@ -497,3 +540,4 @@ def run(repo, col):
     rule_a8(repo, col)
     rule_a9(repo, col)
     rule_a10(repo, col)
+    rule_a11(repo, col)
